@@ -55,7 +55,8 @@ type c18Env struct {
 
 func genC18Env(c *core.Ctx) c18Env {
 	t := map[string]any{
-		"n":   map[string]any{"a": c.Rng.Intn(20), "b": 1 + c.Rng.Intn(9), "c": c.Rng.Intn(100) - 50},
+		"n": map[string]any{"a": c.Rng.Intn(20), "b": 1 + c.Rng.Intn(9), "c": c.Rng.Intn(100) - 50,
+			"fa": []float64{0.1, 0.2, 1.5, 3.14159, 0.0025}[c.Rng.Intn(5)], "fb": []float64{0.2, 0.7, 2.25, 1e-3}[c.Rng.Intn(4)], "big": []int{33554434, 7, 1 << 40}[c.Rng.Intn(3)]},
 		"s":   map[string]any{"x": c16Words[c.Rng.Intn(5)], "y": c16Words[c.Rng.Intn(5)]},
 		"op":  map[string]any{"cmp": []string{">=", "<", "==", "!="}[c.Rng.Intn(4)], "arith": []string{"+", "-", "*"}[c.Rng.Intn(3)]},
 		"ref": "n.a",
@@ -145,11 +146,14 @@ func (p c18) expression(c *core.Ctx) {
 	env := genC18Env(c)
 	var e string
 	var ft reflect.Type
-	switch c.Rng.Intn(3) {
+	switch c.Rng.Intn(4) {
 	case 0:
 		e, ft = intExpr(c, 0), reflect.TypeOf(0)
 	case 1:
 		e, ft = boolExpr(c), reflect.TypeOf(false)
+	case 2:
+		// floating-point results reach a float64 field with full precision
+		e, ft = []string{"${n.fa}+${n.fb}", "${n.a}/3", "${n.fa}*${n.b}", "${n.c}/${n.b}", "${n.big}/2", "${n.fa}-${n.fb}", "(${n.a}+1)/7"}[c.Rng.Intn(7)], reflect.TypeOf(float64(0))
 	default:
 		e, ft = strExpr(c), reflect.TypeOf("")
 	}
@@ -193,7 +197,12 @@ func (p c18) expression(c *core.Ctx) {
 	case string:
 		ok = ok && got == any(w)
 	case float64:
-		ok = ok && got == any(int(w)) && float64(int(w)) == w
+		if ft.Kind() == reflect.Float64 {
+			ok = ok && got == any(w)
+			c.Count("float_expressions_checked", 1)
+		} else {
+			ok = ok && got == any(int(w)) && float64(int(w)) == w
+		}
 	default:
 		return
 	}
@@ -339,10 +348,39 @@ func (p c18) structValidation(c *core.Ctx) {
 	want := reflect.New(inner).Elem()
 	want.Field(0).SetString(sval)
 	want.Field(1).SetInt(int64(port))
+	doc := ""
+	if c.Rng.Intn(3) == 0 {
+		// a nested struct held by value that is itself required: absent sub-section => all-zero => objected to
+		sub := world.BuildStruct([]world.FieldSpec{{Name: "M", Type: reflect.TypeOf(0), Tag: `yaml:"m"`}, {Name: "T", Type: reflect.TypeOf(""), Tag: `yaml:"t"`}})
+		inner = world.BuildStruct([]world.FieldSpec{
+			{Name: "S", Type: reflect.TypeOf(""), Tag: `yaml:"s" validate:"required"`},
+			{Name: "P", Type: reflect.TypeOf(0), Tag: `yaml:"p"`},
+			{Name: "L", Type: sub, Tag: `yaml:"l" validate:"required"`},
+		})
+		ft = inner
+		if c.Rng.Intn(2) == 0 {
+			ft = reflect.PointerTo(inner)
+		}
+		want = reflect.New(inner).Elem()
+		want.Field(0).SetString(sval)
+		want.Field(1).SetInt(int64(port))
+		doc = fmt.Sprintf("sv:\n  s: %s\n  p: %d\n", sval, port)
+		switch c.Rng.Intn(3) {
+		case 0: // sub-section missing
+		case 1: // present but all zero
+			doc += "  l:\n    m: 0\n"
+		default:
+			m := 1 + c.Rng.Intn(9)
+			doc += fmt.Sprintf("  l:\n    m: %d\n", m)
+			want.Field(2).Field(0).SetInt(int64(m))
+		}
+		tag = []string{`prefix:"sv,validate"`, `value:"${sv},validate"`}[c.Rng.Intn(2)]
+		c.Count("struct_cases_with_required_nested_struct", 1)
+	}
 	fails := c18Validator.Struct(want.Interface()) != nil
-	_, r := startHolder(c, []world.FieldSpec{{Name: "F", Type: ft, Tag: tag}}, "")
+	_, r := startHolder(c, []world.FieldSpec{{Name: "F", Type: ft, Tag: tag}}, doc)
 	c.Count("starts", 1)
-	detail := map[string]any{"tag": tag, "struct": inner.String(), "direct_validator_objects": fails, "outcome": core.Short(r.OutcomeDetail(), 300)}
+	detail := map[string]any{"tag": tag, "struct": inner.String(), "config": doc, "direct_validator_objects": fails, "outcome": core.Short(r.OutcomeDetail(), 300)}
 	if abnormal(r.Outcome()) {
 		c.Fail("", fmt.Sprintf("tag %s: %s", tag, r.OutcomeDetail()), detail)
 		return
